@@ -28,6 +28,10 @@ def bases(tier, seed):
     out.append(gb)
     out.append(S("SunflowerGDD", "Loam", seed=seed + 13, seasons=3, regime="hot", harvest_date="10/30", wparams={"yr_amp": 3.0},
                  events=[{"from": "2002/06/10", "to": "2002/07/20", "Tmax": 41.0, "Tmin": 27.0}, {"from": "2003/06/10", "to": "2003/07/20", "Tmax": 40.0, "Tmin": 26.0}]))
+    # a window that starts AFTER the planting day of its first calendar year (the first season is sown the year after the start)
+    late = S("Barley", "Loam", seed=seed + 19, seasons=3, year=2002)
+    late["start"] = "2001/04/25"
+    out.append(late)
     # each growing-degree-day method with nights above the crop's upper temperature (the thermal calendar of a later season is recomputed by other code
     # than the first season's)
     for gm in (1, 2, 3):
